@@ -48,6 +48,12 @@ pub enum DemoOp {
     // typed level
     /// `inc` may be 0 or negative: the writer must refuse with an error
     Snap { inc: i32, muts: u8, salt: u32 },
+    /// typed level: a message that cannot fit the writer's 64 KiB buffer: must be refused with an error,
+    /// is not part of the recording, and the recording goes on
+    MsgTooLong { salt: u32 },
+    /// typed level: a `write_snap` call for the next tick whose object list names the same (type, id) twice:
+    /// the writer must refuse it with an error; it is not part of the recording, which goes on afterwards
+    SnapDuplicateId { salt: u32 },
     Msg { kind: u8, len: u16, salt: u32 },
 }
 
@@ -387,9 +393,15 @@ impl DemoEngine {
         let h = header(cfg);
         let mut model: Vec<TChunk> = Vec::new();
         let mut refused = 0u64;
+        let mut dup_refused = 0u64;
+        let mut io_refused = 0u64;
+        let mut long_refused = 0u64;
         let mut snaps = 0u64;
         let mut keyframe_span = false;
+        let arm_cell = disk.fail_once.clone();
+        let fired_cell = disk.fail_once_fired.clone();
         let res = guard(|| -> Result<Option<Violation>, String> {
+            let mut armed: Option<u32> = None;
             let mut w: DemoWriter<Protocol> = DemoWriter::new(&mut *disk, &h.net_version, &h.map_name, h.sha, h.crc, if h.server { DemoKind::Server } else { DemoKind::Client }, h.length, &h.timestamp, &h.map).map_err(|e| format!("DemoWriter::new: {}", e))?;
             let mut world: BTreeMap<(u8, u16), Obj> = BTreeMap::new();
             let mut last_tick: Option<i32> = None;
@@ -422,6 +434,17 @@ impl DemoEngine {
                         let objs: Vec<(so::SnapObj, u16)> = world.iter().map(|(&(_, id), o)| (o.to_snap_obj(), id)).collect();
                         let must_refuse = last_tick.map(|t| tick <= t).unwrap_or(false);
                         let r = w.write_snap(tick, objs.iter().map(|(o, id)| (o, *id)));
+                        if let Some(before) = armed.take() {
+                            arm_cell.set(false);
+                            if fired_cell.get() > before {
+                                // the first write of the call (the tick marker) failed and wrote nothing
+                                if r.is_ok() {
+                                    return Ok(Some(v("write-error-swallowed", &[("level", "typed")], "a write call of the disk failed but write_snap reported success".into())));
+                                }
+                                io_refused += 1;
+                                continue;
+                            }
+                        }
                         match r {
                             Ok(()) => {
                                 if must_refuse {
@@ -446,8 +469,58 @@ impl DemoEngine {
                             }
                         }
                     }
+                    DemoOp::WriteError => {
+                        arm_cell.set(true);
+                        armed = Some(fired_cell.get());
+                    }
+                    DemoOp::SnapDuplicateId { salt } => {
+                        if armed.take().is_some() {
+                            arm_cell.set(false);
+                        }
+                        let mut r = Prng::new(mix(cfg.seed, salt as u64, 0x64757065));
+                        let tick = match last_tick {
+                            None => cfg.first_tick.max(0) as i64 + 1,
+                            Some(t) => t as i64 + 1,
+                        };
+                        if tick > i32::MAX as i64 {
+                            continue;
+                        }
+                        // the current world plus one object of an existing kind under an id that is already taken
+                        let mut objs: Vec<(so::SnapObj, u16)> = world.iter().map(|(&(_, id), o)| (o.to_snap_obj(), id)).collect();
+                        let kind = r.below(4);
+                        let a = Obj::gen(&mut r, kind);
+                        let b = Obj::gen(&mut r, kind);
+                        let id = r.below(12) as u16;
+                        objs.retain(|(o, i)| !(*i == id && format!("{:?}", o.obj_type_id()) == format!("{:?}", a.to_snap_obj().obj_type_id())));
+                        let at = r.usize_below(objs.len() + 1);
+                        objs.insert(at, (a.to_snap_obj(), id));
+                        objs.push((b.to_snap_obj(), id));
+                        match w.write_snap(tick as i32, objs.iter().map(|(o, id)| (o, *id))) {
+                            Err(_) => dup_refused += 1,
+                            Ok(()) => return Ok(Some(v("invalid-snapshot-accepted", &[], format!("write_snap accepted tick {} although two objects share type and id {}", tick, id)))),
+                        }
+                    }
+                    DemoOp::MsgTooLong { salt } => {
+                        if armed.take().is_some() {
+                            arm_cell.set(false);
+                        }
+                        if last_tick.is_none() {
+                            continue;
+                        }
+                        let mut r = Prng::new(mix(cfg.seed, salt as u64, 0x6c6f6e67));
+                        let n = 65_536 + r.usize_below(5000);
+                        let text: Vec<u8> = (0..n).map(|_| b"abcdefghij klmnopqrstuvwxyz"[r.usize_below(27)]).collect();
+                        let m = if r.chance(1, 2) { g::Game::SvMotd(g::SvMotd { message: &text }) } else { g::Game::SvBroadcast(g::SvBroadcast { message: &text }) };
+                        match w.write_msg(&m) {
+                            Err(_) => long_refused += 1,
+                            Ok(()) => return Ok(Some(v("invalid-message-accepted", &[], format!("write_msg accepted a {}-byte message text", n)))),
+                        }
+                    }
                     DemoOp::Msg { kind, len, salt } => {
                         if last_tick.is_none() {
+                            if armed.take().is_some() {
+                                arm_cell.set(false);
+                            }
                             continue;
                         }
                         let text = msg_text(cfg.seed, len.min(900), salt);
@@ -456,7 +529,18 @@ impl DemoEngine {
                             1 => g::Game::SvBroadcast(g::SvBroadcast { message: &text }),
                             _ => g::Game::SvReadyToEnter(g::SvReadyToEnter),
                         };
-                        w.write_msg(&m).map_err(|e| format!("write_msg: {}", e))?;
+                        let r = w.write_msg(&m);
+                        if let Some(before) = armed.take() {
+                            arm_cell.set(false);
+                            if fired_cell.get() > before {
+                                if r.is_ok() {
+                                    return Ok(Some(v("write-error-swallowed", &[("level", "typed")], "a write call of the disk failed but write_msg reported success".into())));
+                                }
+                                io_refused += 1;
+                                continue;
+                            }
+                        }
+                        r.map_err(|e| format!("write_msg: {}", e))?;
                         model.push(TChunk::Message(format!("{:?}", m)));
                     }
                     _ => {}
@@ -466,6 +550,9 @@ impl DemoEngine {
         });
         if count {
             ctx.count_n("probe_typed_refused_tick", refused);
+            ctx.count_n("probe_typed_refused_duplicate_id", dup_refused);
+            ctx.count_n("probe_typed_refused_by_write_error", io_refused);
+            ctx.count_n("probe_typed_refused_long_message", long_refused);
             ctx.count_n("probe_typed_snapshots", snaps);
             if keyframe_span {
                 ctx.count("probe_typed_crossed_keyframe_interval");
@@ -613,6 +700,7 @@ impl Engine for DemoEngine {
                 _ => *s.pick(&[16_384u32, 30_000, 60_000, 65_531, 65_532, 65_533, 65_535, 65_536, 65_537, 65_540, 70_000]),
             }
         };
+        let typed_write_errors = !fault_free && c.chance(1, 4);
         if typed {
             for _ in 0..n {
                 if s.chance(3, 4) {
@@ -624,8 +712,22 @@ impl Engine for DemoEngine {
                         5 => s.range(1000, 100_000) as i32,
                         _ => s.range(1, 8) as i32,
                     };
+                    if s.chance(1, 12) {
+                        ops.push(DemoOp::SnapDuplicateId { salt: s.next_u64() as u32 });
+                    }
+                    if typed_write_errors && s.chance(1, 10) {
+                        ops.push(DemoOp::WriteError);
+                    }
                     ops.push(DemoOp::Snap { inc, muts: *s.pick(&[0u8, 1, 2, 3, 6, 20]), salt: s.next_u64() as u32 });
+                } else if s.chance(1, 15) {
+                    if typed_write_errors && s.chance(1, 4) {
+                        ops.push(DemoOp::WriteError);
+                    }
+                    ops.push(DemoOp::MsgTooLong { salt: s.next_u64() as u32 });
                 } else {
+                    if typed_write_errors && s.chance(1, 10) {
+                        ops.push(DemoOp::WriteError);
+                    }
                     ops.push(DemoOp::Msg { kind: s.below(3) as u8, len: *s.pick(&[0u16, 1, 2, 3, 4, 5, 27, 28, 29, 30, 200, 254, 255, 256, 900]), salt: s.next_u64() as u32 });
                 }
             }
